@@ -238,6 +238,12 @@ func (in *interp) visitInstr(fr *frame, instr ssa.Instruction) continuation {
 	fr.cur = instr
 	in.p.steps++
 	if in.p.steps > in.p.maxSteps {
+		// a path that does not end within the step budget: a candidate for "does not terminate",
+		// decided by replaying it natively under a deadline (confirmed only if the native run does
+		// not return either); the path itself stays undecided
+		if m := in.p.modelNow(); m != nil {
+			in.p.recordFailure("nonterm", "C01:query-returns-within-the-step-budget", "step-budget", "budget exhausted in "+fr.fn.String(), m)
+		}
 		in.p.abort("unwind", fmt.Sprintf("step budget %d exceeded in %s", in.p.maxSteps, fr.fn))
 	}
 	switch instr := instr.(type) {
